@@ -115,11 +115,36 @@ class C05(Prop):
         sched = [rng.below(2) for _ in range(rng.range(0, 6))] if rng.chance(1, 3) else []
         return dict(progs=[prog], sched=sched, hist=1)
 
+    def _window_case(self, rng):
+        # directed family: a reader is parked INSIDE its walk (between 504 and 505, between the quiescence test
+        # and the read 506, or just after the read) while two pushers, parked at their claim, take a few steps
+        # each in a chosen order (one only claims or claims+writes, the other runs a whole push): out-of-order
+        # completion, claims after the quiescence test, publication between the two bitmap reads.
+        k = rng.weighted([(4, 0), (2, 1), (2, 2), (1, rng.range(3, 40)), (1, 61), (1, 62)])   # completed pushes before
+        a = ["P%d" % (i % 4) for i in range(k)] + ["P%d" % rng.below(4) for _ in range(rng.range(1, 2))]
+        b = ["P%d" % rng.below(4) for _ in range(rng.range(1, 2))]
+        rk = rng.weighted([(5, "D"), (3, "C"), (1, "E")])
+        r = [rk] + ([rng.pick(["D", "C", "E"])] if rng.chance(1, 4) else [])
+        park_a = 3 if k == 0 else 1 + 5 + 4 * (k - 1) + 1
+        sched = [0] * max(0, park_a + rng.weighted([(1, -1), (5, 0), (2, 1), (1, 2)]))
+        sched += [1] * rng.weighted([(1, 1), (5, 2), (1, 3)])
+        base = {"D": 1, "C": 2, "E": 1}[rk]          # steps before the first 504 / 521
+        sched += [2] * (base + rng.weighted([(1, 0), (1, 1), (3, 2), (6, 3), (2, 4)]))
+        x, y = (0, 1) if rng.chance(1, 2) else (1, 0)
+        vict, full = [x] * rng.weighted([(3, 1), (2, 2)]), [y] * rng.weighted([(4, 3), (1, 4), (1, 2)])
+        sched += (vict + full) if rng.chance(3, 4) else (full + vict)
+        sched += [2] * rng.range(1, 3)
+        sched += [rng.below(3) for _ in range(rng.range(0, 8))]
+        return dict(progs=[a, b, r], sched=sched)
+
     def gen(self, rng, n):
         cases = []
         for _ in range(n):
             if rng.chance(1, 8):
                 cases.append(self._hist_case(rng))
+                continue
+            if rng.chance(1, 7):
+                cases.append(self._window_case(rng))
                 continue
             mix = rng.weighted([(3, "ppc"), (3, "pcs"), (3, "pps"), (2, "ccp"), (2, "e"), (1, "any")])
             def pusher(lo=1, hi=3):
@@ -293,8 +318,10 @@ class C05(Prop):
     def extra_checks(self, ctx):
         from .core import run_impl
         k = 1 if ctx["tier"] == "quick" else 4
-        lines = ["STRESS %d %d 0" % (ctx["seed"] * 7 + i, 800) for i in range(k)] + \
-                ["STRESS %d %d 8000" % (ctx["seed"] * 13 + i, 6) for i in range(k)]
+        lines = ["STRESS %d %d 0 0" % (ctx["seed"] * 7 + i, 600) for i in range(k)] + \
+                ["STRESS %d %d 8000 0" % (ctx["seed"] * 13 + i, 4) for i in range(k)] + \
+                ["STRESS %d %d 0 8" % (ctx["seed"] * 17 + i, 500) for i in range(k)] + \
+                ["STRESS %d %d 4000 16" % (ctx["seed"] * 19 + i, 3) for i in range(k)]
         rc, outs, err = run_impl(ctx["binpath"], lines, timeout=1200)
         tot = dict(rounds=0, pushes=0, handovers=0, clear_calls=0, snapshots=0, is_empty_calls=0,
                    lost_excused_by_concurrent_clear=0, violations=0)
@@ -314,7 +341,9 @@ class C05(Prop):
                                           "fabricated/torn/dropped value handed out, identity handed to clears twice or shown twice by one "
                                           "snapshot, per-thread order broken inside a slice, a value handed to nobody unless a concurrent "
                                           "clear_with call overlapped its push (late-claim class), and - with no concurrent clearer - a snapshot "
-                                          "missing a push that returned before it began or is_empty = true after a push returned")
+                                          "missing a push that returned before it began or is_empty = true after a push returned. Half of the rounds run with noise "
+                                          "injection: the yield points of the hook commit stall the calling thread for a random 0-4000 spins (or a "
+                                          "yield) with probability 1/8 or 1/16 per shared-memory access, widening every window between two accesses")
         if rc != 0 or len(outs) != len(lines):
             return [("stress", "the stress engine crashed or did not finish (rc=%s)" % rc,
                      dict(stress_lines=lines, observed=outs, stderr=err[-800:]))]
